@@ -107,6 +107,9 @@ def history(M, rec, rng, g, desc):
     pars = g.pars()
     kw = drive.step_pars(pars)
     _, vals0 = g.values(desc, allow_inf=(rng.random() < 0.3))
+    as_int = rng.random() < 0.15
+    if as_int:
+        vals0 = drive.integerise(vals0)
     opts0 = {o: True for o in ("positive_init_speed", "positive_next_speed", "positive_next_density", "positive_init_queue") if rng.random() < 0.2}
     first_engine = rng.choice(("numpy", "numpy", "SX", "MX"))
     ctx = {"desc": desc, "pars": pars, "vals": vals0, "opts": opts0, "first_engine": first_engine}
@@ -114,7 +117,7 @@ def history(M, rec, rng, g, desc):
 
     def first_step(b):
         if first_engine == "numpy":
-            ic = drive.np_init(b, vals0, "vec1", readonly=True)
+            ic = drive.np_init(b, vals0, "vec1", readonly=True, int_dtype=as_int)
             ok = guarded_step(rec, b, ic, NE(), kw, opts0, "numpy", ctx)
             return (drive.read_next(b) if ok else None), ic
         ic, syms = drive.sym_init(M, b, first_engine, symvals, vals0)
